@@ -300,6 +300,85 @@ pub fn check(site: Site, s: &str, acc: &mut Acc) {
     }
 }
 
+/// What a string-literal writer turns `s` into (each backslash doubled, each quote preceded by
+/// a backslash): a user who *types* that text must get that text, not `s`.
+fn escaped_form(s: &str) -> String {
+    s.replace('\\', "\\\\").replace('"', "\\\"")
+}
+
+/// Two user strings in one expression, one spelling the escaped form of the other (a registry
+/// keyed by escaped text must not confuse them): every pair of matcher sites, both orders, under
+/// `-o`; each clause prints to its own file so the reference tells the two apart.
+fn escaped_pairs() -> Acc {
+    let mut strings: Vec<String> = vec!["\\".into(), "\"".into(), "a\\b".into(), "say\"hi".into(), "\\\"".into(), "x\\".into(), "\"\"".into(), "a\\\\b".into()];
+    let more: Vec<String> = strings.iter().map(|s| escaped_form(s)).collect();
+    strings.extend(more);
+    strings.sort();
+    strings.dedup();
+    let sites = [Site::Name, Site::Path, Site::IName, Site::IPath];
+    let mut cases = vec![];
+    for s in &strings {
+        let e = escaped_form(s);
+        for a in sites {
+            for b in sites {
+                cases.push((a, s.clone(), b, e.clone()));
+                cases.push((a, e.clone(), b, s.clone()));
+            }
+        }
+    }
+    par_cases(cases.len() as u64, |i, acc| {
+        let (sa, a, sb, b) = &cases[i as usize];
+        let leaf = |site: Site, s: &str| match site {
+            Site::Name => Test::Name(s.into()),
+            Site::Path => Test::Path(s.into()),
+            Site::IName => Test::IName(s.into()),
+            _ => Test::IPath(s.into()),
+        };
+        let tree = Expr::or(
+            Expr::and(Expr::Test(leaf(*sa, a)), Expr::Action(Action::FPrint("first".into()))),
+            Expr::and(Expr::Test(leaf(*sb, b)), Expr::Action(Action::FPrint("second".into()))),
+        );
+        acc.states += 1;
+        acc.transitions += 1;
+        acc.count("escaped_pairs", 1);
+        let Some(real) = conv::expr_to_real(&tree) else { return };
+        let wit = json!({"kind": "c04-pair", "tree": tree});
+        // every user string is a literal of the program
+        if let C::Ok(h) = compile_handle(&real, &subject::options(false, None)) {
+            if let Ok(text) = h.scheme("/dev/mdt0") {
+                match Prog::read(&text) {
+                    Ok(p) => {
+                        let ss = strings_of(&p.forms);
+                        for s in [a, b] {
+                            if !ss.contains(s) {
+                                acc.violate(Violation::new(
+                                    format!("C04:literal-missing:pair:char={}", char_class(s)),
+                                    format!("{}: no string literal of the program decodes to the user string {s:?} (literals: {ss:?})", tree.show()),
+                                    wit.clone(),
+                                ));
+                                return;
+                            }
+                        }
+                    }
+                    Err(e) => {
+                        acc.violate(Violation::new("C04:unreadable:pair", format!("{}: {e}", tree.show()), wit.clone()));
+                        return;
+                    }
+                }
+            }
+        }
+        let mut scratch = Acc::new();
+        match c02::validate(&tree, &real, &mut scratch) {
+            Ok(_) => acc.validated += 1,
+            Err(m) => acc.violate(Violation::new(
+                format!("C04:user-strings-confused:pair:{}", m.aspect),
+                format!("{}: {}", tree.show(), m.detail),
+                wit,
+            )),
+        }
+    })
+}
+
 fn nth_string(mut idx: u64, len: usize) -> String {
     let mut s = String::new();
     for _ in 0..len {
@@ -365,6 +444,7 @@ pub fn run(ctx: &Ctx) -> i32 {
     }
     log::set_max_level(log::LevelFilter::Off);
     acc = acc.merge(verbose);
+    acc = acc.merge(escaped_pairs());
     let dict = dictionary();
     acc = acc.merge(par_cases((dict.len() * SITES.len()) as u64, |i, acc| {
         let site = SITES[(i % SITES.len() as u64) as usize];
@@ -378,7 +458,7 @@ pub fn run(ctx: &Ctx) -> i32 {
             level: "model_checking",
             exhaustive: true,
             rule: "state = (string-carrying site, user string); the tree is built through the public constructors, compiled and rendered; the text is read back by the independent Guile reader: two expected forms, identical skeleton (string literals replaced by holes) to the program for a benign string, the literal at the site decodes to the user string (literal format text: printed verbatim in the runtime model; file names: present in the destination table); distinct = distinct (site, skeleton) pairs".into(),
-            bound: format!("every string of length 1..{n} over {:?}, each of {dict_len} placeholder-like strings, and strings of 14..1000 characters with a quote / backslash / tilde / non-ASCII character at five positions, at each of {} sites; five strings per site again with a logger listening at Trace level", ALPHA, SITES.len()),
+            bound: format!("every string of length 1..{n} over {:?}, each of {dict_len} placeholder-like strings, and strings of 14..1000 characters with a quote / backslash / tilde / non-ASCII character at five positions, at each of {} sites; five strings per site again with a logger listening at Trace level; every ordered pair (string, its escaped form) over 16 quote/backslash strings at every pair of matcher sites", ALPHA, SITES.len()),
             assumptions: vec![
                 "Guile string-literal escapes as documented in the Guile manual (speclib/src/scm/reader.rs); any other backslash escape is a read error".into(),
                 "a string with a glob character is compared with a benign string that also has one (globs legitimately select another matcher primitive)".into(),
@@ -390,6 +470,10 @@ pub fn run(ctx: &Ctx) -> i32 {
 
 pub fn replay(w: &Value) -> Vec<Violation> {
     let mut acc = Acc::new();
+    if w["kind"] == "c04-pair" || w["kind"] == "environment-value" {
+        // the pair family is small: run it again (an environment finding is re-derived by a full run)
+        return escaped_pairs().violations.into_values().map(|(v, _)| v).collect();
+    }
     let site = SITES.iter().find(|s| format!("{s:?}") == w["site"].as_str().unwrap_or("")).copied();
     if w["log"] == "trace" {
         log::set_max_level(log::LevelFilter::Trace);
